@@ -488,7 +488,7 @@ def run(ctx):
             else:
                 if d["decode_ok"] != model_ok:
                     probs.append("payload decodes: %s, model (1 <= threshold <= number of keys for every access structure): %s" % (d["decode_ok"], model_ok))
-                if model_ok and not d["reencode_eq"]:
+                if model_ok and d["decode_ok"] and not d["reencode_eq"]:
                     probs.append("decode(encode(payload)) re-encodes differently")
                 if not d["instruction_roundtrip"] or not d["payload_is_encoding"]:
                     probs.append("UpdateInstruction does not round-trip through its serialization / payload bytes are not the payload's encoding")
